@@ -192,7 +192,7 @@ def stepParse (signed : Bool) (t : Bytes) : Out :=
     | none => "1 * " ++ (if signed then "EINVAL" else "*")
     | some r =>
       if signed then let a := ofInt int64 r.value; s!"0 {a.val} {alts (a.errno.map errS)}"
-      else if r.neg then (if r.mag = 0 then "* * *" else "1 * *")
+      else if r.neg then "1 * *"
       else let a := ofInt uint64 r.mag; s!"0 {a.val} {alts (a.errno.map errS)}"
   let cov := [if signed then "parse:i64" else "parse:u64"] ++ valueCov (.str t) ++ [s!"rc:{p.rc}"]
   { model := s!"{p.rc} {rv} {errS p.errno} ## -", spec := spec, tags := p.tags, cov := cov }
